@@ -101,7 +101,7 @@ ATTR_TEXT = {
 POSITIVE_ATTRS = ["path", "list:", "list:no_log", "list:result"]
 
 FLAVORS = ["struct", "generic_actor", "generic_where", "generic_msg", "concrete_gmsg",
-           "methods", "multi", "enum", "manual_actor"]
+           "methods", "multi", "multi_after", "enum", "manual_actor"]
 
 # --------------------------------------------------------------------------------------
 # support.rs : shared runtime pieces of the corpus crate
@@ -629,6 +629,45 @@ where
 '''
         return code, "A", "Msg", "Msg { v, fail }", f"rsactor::spawn::<A>(A {{ base: {base} }})"
 
+    if flavor == "multi_after":
+        # as "multi", but the handler under test comes after neighbours that carry options: its own
+        # attribute alone must decide (no state may leak from one method to the next)
+        h = handler_fn(attr_text, "on_msg", "msg", "Msg", "_: &ActorRef<Self>", v,
+                       "self.base + msg.v", "msg.fail")
+        if v["shadow"]:
+            third_ty, third_val = "Option<u32>", "None"
+        else:
+            third_ty, third_val = "std::result::Result<(), String>", 'std::result::Result::Err("third".to_string())'
+        code = f'''
+#[derive(Actor)]
+pub struct A {{
+    base: u32,
+}}
+
+#[message_handlers]
+impl A {{
+    #[handler(no_log)]
+    async fn on_third(&mut self, _m: Third, _: &ActorRef<Self>) -> {third_ty} {{
+        {third_val}
+    }}
+
+{h}
+    #[handler]
+    async fn on_other(&mut self, m: Other, _: &ActorRef<Self>) -> u32 {{
+        self.base + m.v
+    }}
+
+{sync("self.base")}}}
+
+fn _assert_other()
+where
+    A: rsactor::Message<Other, Reply = u32>,
+    A: rsactor::Message<Third, Reply = {third_ty}>,
+{{
+}}
+'''
+        return code, "A", "Msg", "Msg { v, fail }", f"rsactor::spawn::<A>(A {{ base: {base} }})"
+
     if flavor == "enum":
         h = handler_fn(attr_text, "on_msg", "msg", "Msg", "_: &ActorRef<Self>", v,
                        "self.base() + msg.v", "msg.fail")
@@ -1024,6 +1063,10 @@ def generate(outdir, tier, seed, repo):
         rng.shuffle(order)
         for i, (a, v) in enumerate(pairs):
             combos.append((a, v, order[i % len(order)]))
+        # every bare / empty-list attribute also in the position where a neighbour's options could leak
+        for (a, v) in pairs:
+            if a in ("path", "list:") and (a, v, "multi_after") not in combos:
+                combos.append((a, v, "multi_after"))
     else:
         for (a, v) in pairs:
             for fl in FLAVORS:
